@@ -225,7 +225,7 @@ c05_inv(const T0N_CTXT *c)
 	if (!C05_IN_REGION_OK(c->hbuf, c->hlen)) return 0;
 	if (c->cert_sig_len > sizeof c->cert_sig) return 0;
 	if (c->cert_sig_hash_len > 64) return 0;
-	if ((size_t)c->cert_sig_hash_oid + c->cert_sig_hash_len > sizeof t0_datablock) return 0;
+	if ((size_t)c->cert_sig_hash_oid + 64 > sizeof t0_datablock) return 0;
 	if (c->pkey.key_type == BR_KEYTYPE_RSA) {
 		if (c->pkey.key.rsa.n != c->ee_pkey_data) return 0;
 		if (c->pkey.key.rsa.nlen > sizeof c->ee_pkey_data) return 0;
@@ -276,16 +276,61 @@ c05_env(T0N_CTXT *c)
 	c05_ne[0].status = ND_INT();
 	ol = (c05_ne_oid[0] == 0 && c05_ne_oid[1] == 0) ? (size_t)c05_ne_oid[2] + 3 : (size_t)c05_ne_oid[0] + 1;
 	ASSUME(ol <= sizeof c05_ne_oid);
-	ASSUME(c05_ne_oid[0] + 1 <= sizeof c05_ne_oid);
+	ASSUME((size_t)c05_ne_oid[0] + 1 <= sizeof c05_ne_oid);
 	c->name_elts = c05_ne;
 	c->num_name_elts = ND_U8() & 1;
 	/* expected server name: NULL or a NUL-terminated string of at most 7 characters */
 	{ size_t i; for (i = 0; i + 1 < sizeof c05_sname; i ++) c05_sname[i] = (char)ND_U8(); c05_sname[sizeof c05_sname - 1] = 0; }
 	if (ND_U8() & 1) { c->server_name = c05_sname; } else { c->server_name = 0; }
+	/* context invariant, constructed (so that a counterexample replays natively):
+	   decoded EE key = nothing / RSA / EC inside ee_pkey_data; key parts bounded by C05_KB where
+	   the native loops over them (comparison with a trust anchor) */
+	{
+		unsigned kt = ND_U8();
+		size_t a = ND_SIZE(), b = ND_SIZE();
+		ASSUME(kt == 0 || kt == BR_KEYTYPE_RSA || kt == BR_KEYTYPE_EC);
+		ASSUME(a <= C05_KB && b <= C05_KB);
+		c->pkey.key_type = (unsigned char)kt;
+		if (kt == BR_KEYTYPE_RSA) {
+			c->pkey.key.rsa.n = c->ee_pkey_data; c->pkey.key.rsa.nlen = a;
+			c->pkey.key.rsa.e = c->ee_pkey_data + a; c->pkey.key.rsa.elen = b;
+		} else if (kt == BR_KEYTYPE_EC) {
+			c->pkey.key.ec.curve = ND_INT();
+			c->pkey.key.ec.q = c->ee_pkey_data; c->pkey.key.ec.qlen = a;
+		}
+	}
+	ASSUME(c->cert_sig_len <= sizeof c->cert_sig);
+	ASSUME(c->cert_sig_hash_len <= 64);
+	ASSUME((size_t)c->cert_sig_hash_oid + 64 <= sizeof t0_datablock);
 	ASSUME(c05_inv(c));
-	/* bound for the leading-zero / comparison loops over the EE key (check-direct-trust) */
-	ASSUME(c->pkey.key_type != BR_KEYTYPE_RSA || (c->pkey.key.rsa.nlen <= C05_KB && c->pkey.key.rsa.elen <= C05_KB));
-	ASSUME(c->pkey.key_type != BR_KEYTYPE_EC || c->pkey.key.ec.qlen <= C05_KB);
+	/* ---- stated call-site preconditions ---- */
+	/* lengths of the key elements read into pkey_data under its length limit */
+	if (OP == C05_OP_copy_ee_rsa_pkey || OP == C05_OP_do_rsa_vrfy) {
+		ASSUME(C05_TOP(1) <= C05_REGION_LEN_pkey_data && C05_TOP(0) <= C05_REGION_LEN_pkey_data - C05_TOP(1));
+	}
+	if (OP == C05_OP_copy_ee_ec_pkey || OP == C05_OP_do_ecdsa_vrfy) {
+		ASSUME(C05_TOP(0) <= C05_REGION_LEN_pkey_data);
+	}
+	/* copy-name-element: the offset comes from offset-name-element (-1 or an index below num_name_elts) */
+	if (OP == C05_OP_copy_name_element) {
+		ASSUME((int32_t)C05_TOP(0) < 0 || C05_TOP(0) < c->num_name_elts);
+	}
+	/* shift counts of the T0 code are 0..31 */
+	if (OP == C05_OP_lt_lt || OP == C05_OP_gt_gt) {
+		ASSUME(C05_TOP(0) <= 31);
+	}
+	/* values stored into the fields of the context invariant: signature length checked against
+	   BR_X509_BUFSIZE_SIG just before; hash OID offset = one of the OID literals of the data block;
+	   hash length = result of compute-tbs-hash (<= 64) */
+	if (OP == C05_OP_set16 && C05_TOP(0) == offsetof(T0N_CTXT, cert_sig_len)) {
+		ASSUME(C05_TOP(1) <= C05_REGION_LEN_cert_sig);
+	}
+	if (OP == C05_OP_set16 && C05_TOP(0) == offsetof(T0N_CTXT, cert_sig_hash_oid)) {
+		ASSUME((size_t)C05_TOP(1) + 64 <= sizeof t0_datablock);
+	}
+	if (OP == C05_OP_set8 && C05_TOP(0) == offsetof(T0N_CTXT, cert_sig_hash_len)) {
+		ASSUME(C05_TOP(1) <= 64);
+	}
 }
 static void
 c05_post(T0N_CTXT *c, unsigned op)
